@@ -59,6 +59,7 @@ type ScriptTask struct {
 	FailAt   int64  `json:"fail_at"`   // <0: never fails
 	NilAt    int64  `json:"nil_at"`    // <0: never returns nil early
 	StopLag  int64  `json:"stop_lag"`  // returns this long after cancellation
+	FailKind string `json:"fail_kind,omitempty"` // "" plain error; "canceled": an error wrapping context.Canceled (an aborted sub-operation of the task)
 }
 
 // IfaceW is the machine's view of one network interface.
